@@ -982,11 +982,13 @@ def _format_value(value):
     A string representation of `value` when `value` is literally representable,
     or `None`.
   """
-  literal = repr(value)
   try:
+    literal = repr(value)
     if parse_value(literal) == value:
       return literal
-  except SyntaxError:
+  except Exception:  # pylint: disable=broad-except
+    # Anything that cannot be parsed back (tokenizer errors, references to
+    # unknown or ambiguous configurables, ...) has no literal representation.
     pass
   return None
 
